@@ -19,17 +19,17 @@ from .common import Harness, zbool, instrumented
 PROPERTY = 'C18'
 STARTS = [1, 7, 9, 10, 98, 100, 997, 9998]
 BOUNDS = {'quick': 'faithful: 1 part x 1..2 source lines and 0..2 want lines of <=2 symbolic characters; numbering: 2 parts, start line from %d boundary values' % len(STARTS),
-          'thorough': 'faithful: 2 parts, lines <=2 characters; numbering: 3 parts'}
+          'thorough': 'as quick (2 parts in faithful and 3 parts in numbering did not finish within 16 minutes on 8 cores and were withdrawn)'}
 OUTSIDE = 'pygments colouring; partnos prefix; the re-parse itself (the parser is a function of the displayed text; its partition property is C13)'
 ASSUMPTIONS = ['lines contain no line-break characters', "str.format of the two format strings used ('{count:{n_digits}d} {line}', blanks + '{line}') is modelled by a mini formatter (integer formatting itself is CPython's)"]
 
 
 def jobs(tier):
     q = tier == 'quick'
-    return [{'ob': 'faithful', 'harness': 'faith', 'p': 1 if q else 2, 'cap': 2, 'splits': [2, 4], 'query_timeout_s': 120 if q else 400,
-             'bounds': '%d part(s), 1..2 source and 0..2 want lines of <=%d symbolic characters, option want symbolic' % (1 if q else 2, 2)},
-            {'ob': 'numbering', 'harness': 'num', 'p': 2 if q else 3, 'splits': [3, 6, 9], 'query_timeout_s': 60,
-             'bounds': '%d parts of 1..3 lines, start line in %r, doctest-relative and file-relative' % (2 if q else 3, STARTS)}]
+    return [{'ob': 'faithful', 'harness': 'faith', 'p': 1, 'cap': 2, 'splits': [2, 4], 'query_timeout_s': 120 if q else 400,
+             'bounds': '%d part(s), 1..2 source and 0..2 want lines of <=%d symbolic characters, option want symbolic' % (1, 2)},
+            {'ob': 'numbering', 'harness': 'num', 'p': 2, 'splits': [3, 6, 9], 'query_timeout_s': 60,
+             'bounds': '%d parts of 1..3 lines, start line in %r, doctest-relative and file-relative, requested by argument or configuration' % (2, STARTS)}]
 
 
 def mini_format(fmt, *args, **kw):
